@@ -50,6 +50,8 @@ func (g *G) Pending() int { return len(g.steps) }
 
 func (g *G) Pick(xs ...int) int { return xs[g.R.Intn(len(xs))] }
 
+func (g *G) PickI64(xs ...int64) int64 { return xs[g.R.Intn(len(xs))] }
+
 func (g *G) PickS(xs ...string) string { return xs[g.R.Intn(len(xs))] }
 
 func (g *G) Mode() int { return g.R.Intn(6) }
